@@ -678,6 +678,7 @@ func (i *Index) CreateSeriesListIfNotExists(keys [][]byte, names [][]byte, tagsS
 				}
 
 				// Some cached bitset results may need to be updated.
+				i.tagValueCache.changed()
 				i.tagValueCache.RLock()
 				for j, id := range ids {
 					if id == 0 {
@@ -752,6 +753,7 @@ func (i *Index) CreateSeriesIfNotExists(key, name []byte, tags models.Tags) erro
 
 	// If there are cached sets for any of the tag pairs, they will need to be
 	// updated with the series id.
+	i.tagValueCache.changed()
 	i.tagValueCache.RLock()
 	if i.tagValueCache.measurementContainsSets(name) {
 		for _, pair := range tags {
@@ -800,6 +802,7 @@ func (i *Index) DropSeries(seriesID uint64, key []byte, cascade bool) error {
 
 	// If there are cached sets for any of the tag pairs, they will need to be
 	// updated with the series id.
+	i.tagValueCache.changed()
 	i.tagValueCache.RLock()
 	if i.tagValueCache.measurementContainsSets(name) {
 		for _, pair := range tags {
@@ -876,6 +879,7 @@ func (i *Index) DropSeriesList(seriesIDs []uint64, keys [][]byte, _ bool) error 
 	// else keeps a stale cached set from listing it here.
 	for idx, key := range keys {
 		name, tags := models.ParseKeyBytes(key)
+		i.tagValueCache.changed()
 		i.tagValueCache.RLock()
 		if i.tagValueCache.measurementContainsSets(name) {
 			for _, pair := range tags {
@@ -1073,6 +1077,7 @@ func (i *Index) TagValueSeriesIDIterator(name, key, value []byte) (tsdb.SeriesID
 		}
 	}
 
+	gen := i.tagValueCache.generation()
 	a := make([]tsdb.SeriesIDIterator, 0, len(i.partitions))
 	for _, p := range i.partitions {
 		itr, err := p.TagValueSeriesIDIterator(name, key, value)
@@ -1092,7 +1097,8 @@ func (i *Index) TagValueSeriesIDIterator(name, key, value []byte) (tsdb.SeriesID
 	// Check if the iterator contains only series id sets. Cache them...
 	if ssitr, ok := itr.(tsdb.SeriesIDSetIterator); ok {
 		ss := ssitr.SeriesIDSet()
-		i.tagValueCache.Put(name, key, value, ss)
+		// Series created or dropped since gen may be missing from (or still in) the set.
+		i.tagValueCache.PutIfUnchanged(name, key, value, ss, gen)
 	}
 	return itr, nil
 }
